@@ -418,6 +418,8 @@ pub fn cfgs(tier: &str) -> Vec<SysConfig> {
     if tier != "quick" {
         v.push(SysConfig { fill_factor: 3, event_per_zone: 3, shards: 1, segments_per_merge: 3, ..Default::default() });
     }
+    // memtable of one row and fan-in 4: compacted segments hold more zones than `fill_factor`
+    v.push(SysConfig { fill_factor: 1, event_per_zone: 1, shards: 1, segments_per_merge: 4, ..Default::default() });
     v
 }
 
